@@ -187,7 +187,10 @@ func driveC18(t *testing.T, out *vEmitter) {
 		eff := fc.host
 		var hdr [][2]string
 		if fc.rp {
+			// the browser talks to the public name; the front proxy forwards to the internal address
 			eff = "pub.a.example.com"
+			b = e.newBrowser(scheme + "://" + eff)
+			b.host = fc.host
 			hdr = append(hdr, [2]string{"X-Forwarded-Host", eff})
 		} else {
 			// spoofed forwarding header: must not influence the Domain with reverse-proxy off
